@@ -264,6 +264,9 @@ class Evaluator:
                 items = [x for x in b if isinstance(x, str)]
                 r = z3.InRe(a, z3.Union(*[z3.Re(x) for x in items]) if len(items) > 1 else z3.Re(items[0])) if items else z3.BoolVal(False)
                 return z3.Not(r) if neg else r
+            if z3.is_string(a) or z3.is_string(b):
+                a = self.bytes_to_string(a)
+                b = self.bytes_to_string(b)
             if (z3.is_string(b) or isinstance(b, str)) and (z3.is_string(a) or isinstance(a, str)):
                 bb = z3.StringVal(b) if isinstance(b, str) else b
                 aa = z3.StringVal(a) if isinstance(a, str) else a
@@ -277,6 +280,9 @@ class Evaluator:
             f = {ast.Eq: operator.eq, ast.NotEq: operator.ne, ast.Lt: operator.lt, ast.LtE: operator.le, ast.Gt: operator.gt, ast.GtE: operator.ge, ast.Is: operator.is_, ast.IsNot: operator.is_not}[type(op)]
             return f(a, b)
         if z3.is_string(a) or z3.is_string(b):
+            # byte strings may be modelled as z3 strings over code points 0..255 (container detection)
+            a = self.bytes_to_string(a)
+            b = self.bytes_to_string(b)
             aa = z3.StringVal(a) if isinstance(a, str) else a
             bb = z3.StringVal(b) if isinstance(b, str) else b
             if not (z3.is_string(aa) and z3.is_string(bb)):
@@ -312,6 +318,12 @@ class Evaluator:
             raise Untranslatable("bool ordering")
         x, y = self.bv(a), self.bv(b)
         return {ast.Eq: lambda: x == y, ast.NotEq: lambda: x != y, ast.Lt: lambda: x < y, ast.LtE: lambda: x <= y, ast.Gt: lambda: x > y, ast.GtE: lambda: x >= y}[type(op)]()
+
+    @staticmethod
+    def bytes_to_string(x):
+        if isinstance(x, (bytes, bytearray)):
+            return z3.StringVal("".join(chr(c) for c in x))
+        return x
 
     def _bad(self, msg):
         raise Untranslatable(msg)
@@ -449,6 +461,12 @@ class Evaluator:
                 return
             if name == "isinstance":
                 raise Untranslatable("isinstance on a symbolic path")
+            if name == "hasattr":
+                for args, cs in self.ev_many(node.args, env):
+                    if self.is_sym(args[0]):
+                        raise Untranslatable("hasattr of symbolic value")
+                    yield hasattr(args[0], args[1]), cs
+                return
             if name in ("int", "bool", "str"):
                 for args, cs in self.ev_many(node.args, env):
                     if any(self.is_sym(a) for a in args):
